@@ -371,7 +371,9 @@ Placed(t, err, obs) ==
           /\ (k < Len(E) => ~IsCont(E[k + 1]))
           /\ A - k >= 0
           /\ Slice(t, A - k, A - k + Len(E)) = E
-          /\ (err.k = "syntax" /\ ByteAt(t, err.p) \notin {CR, LF} => k < Len(E))
+          \* the offending byte is shown - unless it starts a multi-byte character that the window holds
+          \* only in part (trimLastInvalidRune drops it; cli/test.yaml pins excerpts cut at the read position)
+          /\ (err.k = "syntax" /\ ByteAt(t, err.p) \notin {CR, LF} /\ ByteAt(t, err.p) < 128 => k < Len(E))
 
 Correct(t, err, obs) == obs.line = TrueLine(t, err) /\ Placed(t, err, obs)
 
